@@ -273,7 +273,8 @@ HEADS = {
     "beq+12": lambda: [BEQ(R("b_rs1"), R("b_rs2"), 12)],
     "bne+8": lambda: [BNE(R("b_rs1"), R("b_rs2"), 8)],
     "jal+12": lambda: [JAL(R("j_rd"), 12, 12)],
-    "add-then-blt+12": lambda: [ADD(R("p_rd"), R("p_rs1"), R("p_rs2")), BLT(R("b_rs1"), R("b_rs2"), 12)],
+    # (destination limited to x0..x9 so that a following print-ecall keeps its code in a7)
+    "add-then-blt+12": lambda: [ADD(sym_int("p_rd", 0, 9), R("p_rs1"), R("p_rs2")), BLT(R("b_rs1"), R("b_rs2"), 12)],
     "exit-ecall": lambda: [ECALL()],
 }
 for _h in HEADS:
